@@ -156,6 +156,9 @@ func VH13a_listener() {
 	})
 	side := vt.Listen(sock, "a")
 	var tps []*vt.Pipe
+	// closing a connection may report an error (a reset TLS connection does): it is closed all the same and
+	// its life cycle must complete exactly as otherwise
+	closeFails := verif.Choice("close-reports-an-error", 2) == 1
 	for i := 0; i < C; i++ {
 		cur = i
 		f := fate[i]
@@ -164,8 +167,12 @@ func VH13a_listener() {
 		if f == 6 {
 			tp = side.L.ConnectDropped("c")
 		} else {
-			tp = side.Peer("c")
+			tp = side.L.Connect("c")
 		}
+		if closeFails {
+			tp.CloseErr = vt.ErrReset
+		}
+		verif.Quiesce()
 		tps = append(tps, tp)
 		verif.Quiesce()
 		if len(order) <= i {
